@@ -51,8 +51,7 @@ contract(N + 'get_next_tag', params=dict(el=NODE), returns=NODE, requires=['el i
 
 # generators over children / descendants: contracts assumed here (validated by the bounded tier), see props
 contract(N + 'get_tag_children', params=dict(self=CSSMATCH, el=NODE, start=TOpt(INT), reverse=BOOL, no_iframe=BOOL), returns=SEQ_NODE,
-         kind='generator', requires=['is_none(start)', 'not reverse'], ensures=['result == tag_children(self, el, no_iframe)'],
-         opaque=True, properties=['C01'])
+         ensures=['result == kids_spec(self, el, start, reverse, True, no_iframe)'], properties=['C01'])
 contract(N + 'get_tag_descendants', params=dict(self=CSSMATCH, el=NODE, no_iframe=BOOL), returns=SEQ_NODE,
          kind='generator', ensures=['result == tag_desc(self, el, no_iframe)'], opaque=True, properties=['C01', 'C03'])
 
